@@ -23,6 +23,7 @@ import (
 	"sort"
 	"strconv"
 	"strings"
+	"sync"
 	"unicode"
 
 	ucfg "github.com/elastic/go-ucfg"
@@ -227,7 +228,7 @@ var smallTable = func() []string {
 	seen := map[string]bool{}
 	var out []string
 	for _, s := range l {
-		if seen[s] || inEnum(s, 4) {
+		if seen[s] {
 			continue
 		}
 		seen[s] = true
@@ -246,7 +247,55 @@ var largeTable = []string{
 
 const chunkSize = 8
 
-func universe(tier string) int { return enumCount(maxLen(tier)) + len(smallTable) }
+func tierIdx(tier string) int {
+	if tier == "thorough" {
+		return 1
+	}
+	return 0
+}
+
+var (
+	extraOnce [2]sync.Once
+	extraStrs [2][]string
+)
+
+// literalsOfLen lists the strings of exactly n alphabet characters that
+// strconv.ParseInt(s, 0, 64) accepts.
+func literalsOfLen(n int) []string {
+	var out []string
+	lo, hi := enumCount(n-1), enumCount(n)
+	for i := lo; i < hi; i++ {
+		s := enumString(i)
+		if _, err := strconv.ParseInt(s, 0, 64); err == nil {
+			out = append(out, s)
+		}
+	}
+	return out
+}
+
+// extras = what the universe of a tier holds beyond the exhaustive strings:
+// the boundary table and every integer literal one character longer.
+func extras(tier string) []string {
+	t := tierIdx(tier)
+	extraOnce[t].Do(func() {
+		L := maxLen(tier)
+		var out []string
+		for _, s := range smallTable {
+			if !inEnum(s, L+1) || (len(s) == L+1 && !isLiteral(s)) {
+				out = append(out, s)
+			}
+		}
+		extraStrs[t] = append(out, literalsOfLen(L+1)...)
+	})
+	return extraStrs[t]
+}
+
+func isLiteral(s string) bool {
+	_, err := strconv.ParseInt(s, 0, 64)
+	return err == nil
+}
+
+func universe(tier string) int { return enumCount(maxLen(tier)) + len(extras(tier)) }
 
 func chunkCases(tier string) int { return (universe(tier) + chunkSize - 1) / chunkSize }
 
@@ -255,7 +304,30 @@ func universeString(tier string, i int) string {
 	if i < n {
 		return enumString(i)
 	}
-	return smallTable[i-n]
+	return extras(tier)[i-n]
+}
+
+// settingsFor: integer literals meet every (MaxIdx, EnableNumKeys); strings
+// that are no integer literal are names whatever the setting, they meet the
+// most permissive setting plus one chosen by the string (thorough: all
+// settings up to length 4).
+func settingsFor(s, tier string) []setting {
+	if isLiteral(s) || (tier == "thorough" && len(s) <= 4) {
+		return allSettings
+	}
+	fixed := setting{65536, false}
+	h := uint32(2166136261)
+	for i := 0; i < len(s); i++ {
+		h = (h ^ uint32(s[i])) * 16777619
+	}
+	rot := allSettings[int(h%uint32(len(allSettings)))]
+	if rot == fixed {
+		rot = setting{1024, false}
+	}
+	if rot.m == fixed.m {
+		return []setting{fixed, rot}
+	}
+	return []setting{rot, fixed}
 }
 
 func (check) Cases(tier string) int { return chunkCases(tier) + len(allSettings) }
@@ -1212,7 +1284,16 @@ func (w *world) runString(s string, sts []setting) (wrongIndex bool) {
 	if _, err := strconv.ParseInt(s, 0, 64); err == nil {
 		w.res.SetAdd("literal_syntax", syntaxClass(s))
 	}
-	for _, pos := range w.poss {
+	heavy := false
+	if v, err := strconv.ParseInt(s, 0, 64); err == nil && v > w.capInterior && v <= 65536 {
+		heavy = true
+		for _, m := range maxIdxValues {
+			if v == m || v == m-1 {
+				heavy = false // boundary values get the full treatment
+			}
+		}
+	}
+	for pi, pos := range w.poss {
 		key := pos.key(s, w.p, w.q)
 		if nontrivial {
 			w.res.Key(pos.name + "|" + s)
@@ -1240,18 +1321,16 @@ func (w *world) runString(s string, sts []setting) (wrongIndex bool) {
 				if u == uSet && key == "" {
 					continue
 				}
-				if u != uSet {
-					if segs[0].index && segs[0].v > w.capTop {
-						// legitimate top-level index built through Merge: quadratic in v
-						w.res.Ev("skipped_costly_top_level_index", 1)
-						continue
-					}
-					if interiorLarge(segs, st, w.capInterior) {
-						// a large index strictly inside the allowed range: same class as
-						// the boundary values, only exercised through the setter
-						w.res.Ev("skipped_large_interior_index", 1)
-						continue
-					}
+				if u != uSet && segs[0].index && segs[0].v > w.capTop {
+					// legitimate top-level index built through Merge: quadratic in v
+					w.res.Ev("skipped_costly_top_level_index", 1)
+					continue
+				}
+				if (u != uSet || pi != 0) && interiorLarge(segs, st, w.capInterior) {
+					// a large index strictly inside the allowed range: same class as
+					// the boundary values, only exercised as a whole-key setter name
+					w.res.Ev("skipped_large_interior_index", 1)
+					continue
 				}
 				dev, wi := w.builder(u, pos, key, st, segs, T, devFalse[u])
 				if dev && !st.e {
@@ -1262,7 +1341,9 @@ func (w *world) runString(s string, sts []setting) (wrongIndex bool) {
 				}
 			}
 		}
-		if w.getters(pos, s, key, sts, T) {
+		if heavy && pi != 0 {
+			w.res.Ev("skipped_large_interior_index", 1)
+		} else if w.getters(pos, s, key, sts, T) {
 			wrongIndex = true
 		}
 	}
@@ -1276,18 +1357,26 @@ func (w *world) runString(s string, sts []setting) (wrongIndex bool) {
 // seed-chosen longer near-numeric strings
 // ---------------------------------------------------------------------------
 
-var interesting = []int64{0, 1, 2, 7, 8, 9, 10, 15, 16, 17, 255, 1023, 1024, 1025, 2048, 4095, 65535, 65536, 65537, 131074, -1, -2, -5, -6, -1024, -65536}
+var interesting = []int64{0, 1, 2, 6, 7, 8, 9, 10, 15, 16, 17, 255, 256, 1023, 1024, 1025, 2050, -1, -2, -4, -5, -6, -1024}
+
+// rare: every legitimate index above a few hundred costs that many slots
+var interestingLarge = []int64{65535, 65536, 65537, 131074, 4095, 40000, -65536}
 
 const mutAlphabet = "-+0123456789xXbBoO_aAfF. e"
 
 func randomString(r *rand.Rand) string {
 	var v int64
-	if r.Intn(3) == 0 {
-		v = int64(r.Intn(1 << 17))
-		if r.Intn(8) == 0 {
+	switch k := r.Intn(40); {
+	case k == 0:
+		v = interestingLarge[r.Intn(len(interestingLarge))]
+	case k < 16:
+		v = int64(r.Intn(300))
+		if r.Intn(6) == 0 {
 			v = -v
 		}
-	} else {
+	case k < 20:
+		v = 65537 + int64(r.Intn(1<<19)) // above every MaxIdx: always a name
+	default:
 		v = interesting[r.Intn(len(interesting))]
 	}
 	sp := spellings(v)
@@ -1364,7 +1453,7 @@ func (w *world) runChunk(idx, nChunks int) {
 		w.res.Sample = map[string]interface{}{"strings": strs, "p": w.p, "q": w.q, "value": w.val, "settings": len(allSettings), "positions": len(w.poss)}
 	}
 	for _, s := range strs {
-		w.runString(s, allSettings)
+		w.runString(s, settingsFor(s, w.tier))
 	}
 }
 
